@@ -47,6 +47,8 @@ w("07_etcd_insertion_order_nested_prefixes", ["mode etcd", put("/backends/k2", "
    probe("https://h1.invalid/a/b/x"), probe("https://h1.invalid/a/x"), "list"])
 w("08_etcd_move_and_delete", ["mode etcd", put("/backends/k1", "https://h1.invalid/a", "s1"), put("/backends/k2", "https://h1.invalid/b", "s2"),
    put("/backends/k1", "https://h2.invalid/a", "s1"), "del " + enc("/backends/k1"), probe("https://h1.invalid/a/x"), probe("https://h2.invalid/a/x"), probe("https://h1.invalid/b/x"), "list"])
+w("11_static_backends_emptied", ["mode static", "load " + cfg("a, b", [a, b]), "reload " + cfg("", [a, b]),
+   probe("https://h1.invalid/a/x"), probe("https://h1.invalid/b/x"), "list"])
 c1 = cfg("a, b", [a, b]); c2 = cfg("b, c", [b, c])
 ops = ["mode static", "load " + c1, "racebegin 4"]
 for i in range(150): ops += ["reload " + c2, "reload " + c1]
